@@ -3,9 +3,30 @@
    Layers: F = documented format (Format.v), S = abstract spec (Spec/SpecStep), I = model of the Rust (World.step'). *)
 From Coq Require Import List NArith Bool Arith Sorted.
 From Coq Require Import Strings.Byte.
-Require Import BS.Bytes BS.Common BS.Api BS.Layout BS.Format BS.FormatFacts BS.Spec BS.SpecStep.
-Require Import BS.FS BS.FSFacts BS.Meta BS.MetaFacts BS.Header BS.Reader BS.ReaderFacts BS.Index BS.Data BS.DataFacts BS.Seek BS.Series BS.SeriesFacts.
+Require Import BS.Bytes BS.Common BS.Api BS.Layout BS.Format BS.FormatFacts BS.Spec BS.SpecStep BS.Sections.
+Require Import BS.FS BS.FSFacts BS.Meta BS.MetaFacts BS.Header BS.Reader BS.ReaderFacts BS.Index BS.Data BS.DataFacts BS.Seek BS.SeekFacts BS.Series BS.SeriesFacts BS.ReadAllFacts.
 Import ListNotations.
 
-(* partial: RoughPos::refine returns the byte range of the selected lines - not proved yet. The reader
-   half (any byte range, any chunking) is props/C01.v. *)
+(* (I refines S) FULL STATEMENT, proved: for an open series holding any well-formed list l (any payload size,
+   any timestamps), and ANY pair of bounds (inclusive, exclusive, unbounded; before, inside, after the data;
+   inside gaps; at the 65534 edge), read_all returns exactly the stored lines that satisfy both bounds
+   (Spec.select), in order - or, when there is none, nothing (an empty result or a range error). It never
+   errors or comes back empty when such lines exist, and never panics. Covers the binary search over the
+   index, the gap / window / till-end classification, the 16 bit delta scans and the chunked reader. *)
+Theorem C02_range_read : forall fs sr p hdr ihdr l, RepH fs sr p hdr ihdr l -> forall lo hi,
+  read_all sr lo hi fs = (fs, Ok (select lo hi l))
+  \/ (select lo hi l = [] /\ read_all sr lo hi fs = (fs, Err ERange)).
+Proof. exact read_all_ok. Qed.
+Print Assumptions C02_range_read.
+Check C02_range_read : forall fs sr p hdr ihdr l, RepH fs sr p hdr ihdr l -> forall lo hi,
+  read_all sr lo hi fs = (fs, Ok (select lo hi l))
+  \/ (select lo hi l = [] /\ read_all sr lo hi fs = (fs, Err ERange)).
+
+(* the seek alone: any processor, any chunking, sees exactly the selected lines *)
+Theorem C02_seek : forall fs sr p hdr ihdr l, RepH fs sr p hdr ihdr l -> forall cb0 lo hi,
+  (exists ps, seek_pos (s_data sr) lo hi fs = (fs, Ok ps) /\ seek_good p l cb0 ps (select lo hi l))
+  \/ (select lo hi l = [] /\ seek_pos (s_data sr) lo hi fs = (fs, Err ERange)).
+Proof. exact seek_ok. Qed.
+Print Assumptions C02_seek.
+(* the invariant RepH is established by create and kept by appends (props/C03.v, props/C01.v);
+   partial: re-establishing it on reopen is C04 (not proved). *)
